@@ -93,6 +93,7 @@ type interp struct {
 	// values of the last evaluated function / of the outermost one
 	lastVals    map[ssa.Value]iv
 	lastValsTop map[ssa.Value]iv
+	allVals     map[ssa.Value]iv
 }
 
 func (it *interp) constIVOf(v ssa.Value) (iv, bool) {
@@ -416,7 +417,21 @@ func (it *interp) evalFunc(fn *ssa.Function, args []iv) (iv, error) {
 	}
 	it.lastVals = vals
 	if it.depth == 1 {
-		it.lastValsTop = vals
+		// values of the top frame and of every function inlined into it
+		if it.allVals == nil {
+			it.allVals = map[ssa.Value]iv{}
+		}
+		for k, v := range vals {
+			it.allVals[k] = v
+		}
+		it.lastValsTop = it.allVals
+	} else {
+		if it.allVals == nil {
+			it.allVals = map[ssa.Value]iv{}
+		}
+		for k, v := range vals {
+			it.allVals[k] = v
+		}
 	}
 	return ret, nil
 }
@@ -610,7 +625,7 @@ func c08Intervals(c *Ctx, p *Prog, fn *ssa.Function) {
 			return
 		}
 		for _, pair := range [][2]ssa.Value{{bo.X, bo.Y}, {bo.Y, bo.X}} {
-			if pair[0] == ssa.Value(fn.Params[0]) {
+			if pair[0] == ssa.Value(fn.Params[0]) || Peel(pair[0]) == ssa.Value(fn.Params[0]) {
 				if v, ok := it0.lastValsTop[pair[1]]; ok && v.kind == 'i' && v.ilo.Cmp(v.ihi) == 0 {
 					thr = append(thr, v.ilo)
 				} else if cst, ok := pair[1].(*ssa.Const); ok {
